@@ -1,6 +1,7 @@
 #!/bin/bash
 # usage: seed_run.sh <name> <property>...   applies /verif/seeded/<name>/patch.diff to /repo, runs the checks, undoes it.
 NAME=$1; shift
+if [ -n "$(git -C /repo status --porcelain)" ]; then echo "REFUSING: /repo has uncommitted changes"; exit 2; fi
 cd /repo && git apply /verif/seeded/$NAME/patch.diff || exit 2
 for P in "$@"; do
   /verif/bin/goverif check $P 2>&1 | grep -a "VIOLATION\|^C[0-9]*:" | cut -c1-300 | head -12
